@@ -182,6 +182,10 @@ func (configgen *ConfigGeneratorImpl) deltaFromServices(key model.ConfigKey, pro
 		}
 		// Service exists. If the service update has port change, we need to the corresponding port clusters.
 		services = append(services, service)
+		// All clusters of this service are rebuilt by the caller, which removes whatever it built from the deleted
+		// list again. Subset clusters that are not rebuilt (for example because the hostname is now served by a
+		// service for which the subset selects nothing) are really deleted, just as for a full push.
+		deletedClusters = append(deletedClusters, subsetClusters[key.Name].UnsortedList()...)
 		for port, cluster := range servicePortClusters[service.Hostname.String()] {
 			// if this service port is removed, we can conclude that it is a removed cluster.
 			if _, exists := service.Ports.GetByPort(port); !exists {
